@@ -550,6 +550,33 @@ func c17SelectBlock(c *Ctx) {
 			}
 		}
 	}
+	// lists that are windows of one backing array: selecting from them must not write behind them
+	for it := 0; it < c.scale(30, 300); it++ {
+		n := 4 + r.Intn(5)
+		var base []*TV
+		var vals []*Doc
+		for j := 0; j < n; j++ {
+			v := c17Num(r)
+			vals = append(vals, v)
+			base = append(base, tvDec(v.N))
+		}
+		var ws [][2]int
+		var want []*Doc
+		var lastOf *Doc
+		for k := 0; k < 2+r.Intn(4); k++ {
+			lo := r.Intn(n - 1)
+			hi := lo + 1 + r.Intn(n-lo-1)
+			ws = append(ws, [2]int{lo, hi})
+			want = append(want, vals[lo:hi]...)
+		}
+		ws = append(ws, [2]int{0, n})
+		want = append(want, vals...)
+		lastOf = vals[n-1]
+		d := tvMap("str", [][2]any{{hx("ws"), tvWin(base, ws...)}})
+		c.Do(Case{Q: `$.ws.Select("$")`, D: d, XK: "logical", X: c17List(want), Cls: "Select-windows-of-one-array", InDomain: true})
+		c.Do(Case{Q: `$.ws.Select("$").Last()`, D: d, XK: "logical", X: logicalDoc(lastOf), Cls: "Select-windows-of-one-array", InDomain: true})
+		c.Do(Case{Q: `$.ws.Last().Last()`, D: d, XK: "logical", X: logicalDoc(lastOf), Cls: "Select-windows-of-one-array", InDomain: true})
+	}
 	// two selections alive in one query: the result of the first is the receiver while the second is worked out as an argument
 	for it := 0; it < c.scale(150, 1500); it++ {
 		mkList := func(n int) ([]*Doc, []decimal.Decimal) {
